@@ -140,6 +140,15 @@ void SerialAssembleAction::onStop()
     AssembleAction::onStop();
 }
 
+void SerialAssembleAction::onFinished(bool is_succ, const Reason &why, const Trace &trace)
+{
+    //! the finish may not come from the current child (e.g. timeout)
+    stopCurrAction();
+    child_finish_func_ = nullptr;
+
+    AssembleAction::onFinished(is_succ, why, trace);
+}
+
 void SerialAssembleAction::onReset()
 {
     curr_action_ = nullptr;
